@@ -184,9 +184,40 @@ THOROUGH = [_reg(Reassemble("T_tile_rcseq_k2", 2, 7, AL, "reverse_complement_seq
             _reg(SplitAt("T_split_at", [1, 2, 3, 4, 5, 8], 20)).name, _reg(SplitCost("T_costs_k3", 3, [8, 9, 10, 11])).name]
 
 
+# ---------------------------------------------------------------------------------------------------------------
+# (3) pack bookkeeping of the writer (ids, packs, per-pack de-duplication) as an inductive step: shared with C02 (harness/C02.py PackStep)
+# (4) the whole pipeline on small concrete samples under every schedule within the preemption bound: create -> extract returns every
+#     sample exactly (shared groups, reverse-complemented contig, IUPAC codes, N-run, contig shorter than k, identical contigs)
+from harness import C02 as _C02
+from harness.pipe import Pipeline, SPL, C1, C2, C3
+
+
+def _alias(inst, name):
+    import copy
+    j = copy.copy(inst); j.name = name
+    return _reg(j)
+
+
+def _rc(c):
+    return [(3 - b) if b < 4 else b for b in reversed(c)]
+
+
+RICH = [(b"s1", [(b"c1", C1), (b"c2", [3, 3, 2]), (b"c3", [1])]),
+        (b"s2", [(b"c1", _rc(C1)), (b"c2", C1[:8] + [7] + C1[9:]), (b"c3", C1)]),
+        (b"s3", [(b"c1", C1[:7] + [4, 4, 4, 4] + C1[7:]), (b"c2", C2)])]
+QUICK += [_alias(_C02.INSTANCES["pack_raw"], "pack_raw").name, _alias(_C02.INSTANCES["pack_lz"], "pack_lz").name,
+          _reg(Pipeline("pipe_rt_api_t1", 1, RICH, splitters=SPL, preempt=0, driver="api")).name,
+          _reg(Pipeline("pipe_rt_multi_t2", 2, RICH, splitters=SPL, preempt=0, driver="multi")).name]
+THOROUGH += ["pack_raw", "pack_lz", _reg(Pipeline("T_pipe_rt_api_t2_p1", 2, RICH, splitters=SPL, preempt=1, driver="api")).name,
+             _reg(Pipeline("T_pipe_rt_multi_t2_store", 2, RICH, splitters=SPL, preempt=0, driver="multi", zstd="store")).name,
+             _reg(Pipeline("T_pipe_rt_single_t2", 2, RICH, splitters=SPL, preempt=0, driver="single", pack_size=Int(64, 0, 3))).name]
+for _n in ("pipe_rt_api_t1", "pipe_rt_multi_t2", "T_pipe_rt_api_t2_p1", "T_pipe_rt_multi_t2_store", "T_pipe_rt_single_t2"):
+    INSTANCES[_n].required_witnesses = ("finalized", "extracted")
+
+
 def run(ctx):
     insts = [INSTANCES[n] for n in (QUICK if ctx["tier"] == "quick" else THOROUGH)]
     return run_instances("C01", "harness.C01", insts, ctx,
-                         assumptions=["kernel-level: the whole create->extract pipeline (threads, grouping/terminator logic, pack boundaries) is outside the claim",
+                         assumptions=["kernel-level instances cover all inputs within their bounds; the pipeline-level instances (pipe_rt_*) run the whole real create->extract path on small CONCRETE samples (k=3, contigs <= 21 bases) under every schedule within the preemption bound, with a deterministic lossless ZSTD stub",
                                       "get_segment returns the stored bytes (LZ: C09, packs/catalogue: C02/C03, tuple/ZSTD: C12)",
                                       "find_split_by_cost is checked with arbitrary cost vectors in place of LZDiff::get_coding_cost_vector"])
